@@ -214,7 +214,7 @@ def m_is_empty(c):
     ln, l = len_lin(c, arr, loc)
     if ln.is_const():
         c.ret(Int.const(1 if ln.lo == 0 else 0, 1, False))
-    elif ln.lo > 0:
+    elif ln.lo > 0 or (l is not None and c.st.entails_le(LinForm.constant(1) - l)):
         c.ret(Int.const(0, 1, False))
     else:
         c.ret(Int.boolean(), defn=("cmp", "Eq", l, LinForm.constant(0)) if l is not None else None)
